@@ -301,6 +301,12 @@ class Evaluator:
         if k == "arg":
             ty = self.fn.locals[e[1]]["ty"]
             return top(ty)
+        if k == "cast" and len(e) == 3:   # value-normalised form ('cast', x, to)
+            a = self.eval(e[1], env)
+            dst = ty_range(e[2])
+            if a.empty or dst is None:
+                return top(e[2])
+            return a if (dst[0] <= a.lo and a.hi <= dst[1]) else AV(dst[0], dst[1])
         if k == "cast":
             a = self.eval(e[2], env)
             dst = ty_range(e[4])
@@ -339,6 +345,9 @@ class Evaluator:
         if k == "path":
             root, el = path_fields(e)
             ty = None
+            if isinstance(root, tuple) and root and root[0] == "call" and root[1] in self.ret_ranges and \
+                    all((isinstance(x, tuple) and x[0] == "as") or x == "0" for x in el):
+                return self.ret_ranges[root[1]]  # payload of an Option/Result returned by a summarised callee
             return AV(-(1 << 200), 1 << 200) if ty is None else top(ty)
         return AV(-(1 << 200), 1 << 200)
 
